@@ -140,35 +140,7 @@ func runC02(p *P, r *R) {
 	}
 
 	// R02.3 chain walkers
-	recyc := p.mCall("(*bufferManager).recycleBuffer")
-	linkRead := p.mCall("(bufferHeader).nextBufferOffset", "(bufferHeader).hasNext")
-	nWalk := 0
-	for _, f := range p.fnList {
-		if len(findInstrs(f, recyc)) == 0 || len(findInstrs(f, p.mCall("(bufferHeader).nextBufferOffset"))) == 0 {
-			continue
-		}
-		fn := p.fname(f)
-		r.Scope[fn] = true
-		for _, ri := range findInstrs(f, recyc) {
-			rc := ri.(*ssa.Call)
-			x := rc.Call.Args[len(rc.Call.Args)-1]
-			cut := map[*ssa.BasicBlock]bool{}
-			if xi, ok := x.(ssa.Instruction); ok && xi.Block() != nil {
-				cut[xi.Block()] = true // re-entering the defining block re-defines x (loop iteration)
-			}
-			bad := ""
-			for _, li := range findInstrs(f, linkRead) {
-				lc := li.(*ssa.Call)
-				if derivedFrom(lc.Call.Args[0], func(v ssa.Value) bool { return v == x }, 6) && p.reaches(rc, lc, cut) {
-					bad = p.ipos(lc)
-				}
-			}
-			nWalk++
-			r.ob("R02.3", fn+": link of a slice is read before the slice is recycled", p.ipos(rc), bad == "", true,
-				"recycling resets the header; reading hasNext/nextBufferOffset of the same slice afterwards (at %s) loses the rest of the chain", bad)
-		}
-	}
-	r.count("R02.3", "recycle sites in chain walkers", nWalk, 2)
+	linkReadBeforeRecycle(p, r, "R02.3")
 
 	// R02.6 the slot reader used by chain walkers accepts every slot the creator lays out
 	if f := p.fn("(*bufferManager).readBufferSlice"); f != nil {
@@ -295,4 +267,40 @@ func c02Distinct(p *P, r *R) {
 	}
 	r.ob("R02.4", "newSession validates the configuration before creating the buffer manager", p.pos(ns.Pos()), ok, true,
 		"VerifyConfig(config) == nil must dominate the path that reaches createBufferManager")
+}
+
+// linkReadBeforeRecycle (R02.3 / R01.10): once a slice has been given back (recycleBuffer -> push) its
+// header belongs to the free list and to the next releaser; code that walks a chain must read the
+// slice's link before it recycles the slice and must not touch the header afterwards.
+func linkReadBeforeRecycle(p *P, r *R, rule string) {
+	recyc := p.mCall("(*bufferManager).recycleBuffer")
+	linkRead := p.mCall("(bufferHeader).nextBufferOffset", "(bufferHeader).hasNext")
+	nWalk := 0
+	for _, f := range p.fnList {
+		if len(findInstrs(f, recyc)) == 0 || len(findInstrs(f, p.mCall("(bufferHeader).nextBufferOffset"))) == 0 {
+			continue
+		}
+		fn := p.fname(f)
+		r.Scope[fn] = true
+		for _, ri := range findInstrs(f, recyc) {
+			rc := ri.(*ssa.Call)
+			x := rc.Call.Args[len(rc.Call.Args)-1]
+			cut := map[*ssa.BasicBlock]bool{}
+			if xi, ok := x.(ssa.Instruction); ok && xi.Block() != nil {
+				cut[xi.Block()] = true // re-entering the defining block re-defines x (loop iteration)
+			}
+			bad := ""
+			for _, li := range findInstrs(f, linkRead) {
+				lc := li.(*ssa.Call)
+				if derivedFrom(lc.Call.Args[0], func(v ssa.Value) bool { return v == x }, 6) && p.reaches(rc, lc, cut) {
+					bad = p.ipos(lc)
+				}
+			}
+			nWalk++
+			r.ob(rule, fn+": link of a slice is read before the slice is recycled", p.ipos(rc), bad == "", true,
+				"recycling resets the header; reading hasNext/nextBufferOffset of the same slice afterwards (at %s) loses the rest of the chain", bad)
+		}
+	}
+	r.count(rule, "recycle sites in chain walkers", nWalk, 2)
+
 }
